@@ -11,6 +11,7 @@ import (
 	"github.com/angelsolaorbaiceta/inkfem/build"
 	iodef "github.com/angelsolaorbaiceta/inkfem/io/def"
 	iopre "github.com/angelsolaorbaiceta/inkfem/io/pre"
+	iosol "github.com/angelsolaorbaiceta/inkfem/io/sol"
 	"github.com/angelsolaorbaiceta/inkfem/math"
 	"github.com/angelsolaorbaiceta/inkfem/preprocess"
 	"github.com/angelsolaorbaiceta/inkfem/process"
@@ -116,6 +117,7 @@ type jPipeOut struct {
 	MaxError   string
 	PreText    string `json:",omitempty"`
 	DefText    string `json:",omitempty"`
+	SolText    string `json:",omitempty"`
 }
 
 func init() { commands["pipeline"] = cmdPipeline }
@@ -308,6 +310,9 @@ func runPipe(c pipeCase) (out jPipeOut) {
 					}}
 					out.Sol = append(out.Sol, sb)
 				}
+				var sbuf bytes.Buffer
+				iosol.Write(sol, &sbuf)
+				out.SolText = sbuf.String()
 				out.Reactions = map[string][3]string{}
 				for id, r := range sol.NodeReactions() {
 					out.Reactions[id] = t3(r)
